@@ -15,4 +15,50 @@ static int parse_status(int status)
   ENS("C01/parse_status.in_range", IMPLIES(WST_LEGAL(status), RV >= 0 && RV <= 255))
   ;
 
+
+/* descriptors 0 .. n-1 as a mask (n may exceed the model's 32) */
+#define LOW_MASK(n) ((n) >= 32 ? 0xffffffffu : ((n) <= 0 ? 0u : ((1u << (n)) - 1u)))
+#define EXCEPT6_MASK(e) (MASK_OF((e)[0]) | MASK_OF((e)[1]) | MASK_OF((e)[2]) | MASK_OF((e)[3]) | MASK_OF((e)[4]) | MASK_OF((e)[5]))
+/* dispositions of signals 1..31 other than KILL and STOP (default by OS law) */
+#define DISP_ALL_DEFAULT ((~g.disp_default & 0xfffffffeUL & ~(1UL << SIGKILL) & ~(1UL << SIGSTOP)) == 0)
+/* the soft descriptor limit as the property states it: every descriptor number
+   below it */
+#define SOFT_LIMIT_MASK (gc.cfg_rlim_cur >= 32 ? 0xffffffffu : LOW_MASK((int) gc.cfg_rlim_cur))
+
+CONTRACT(fd_in_set)
+static bool fd_in_set(int fd, const int *fd_set, size_t size)
+  REQ_(size == 6 && fd_set != NULL)
+  ASSIGNS()
+  ENS("C11/fd_in_set.membership", RV == (fd == fd_set[0] || fd == fd_set[1] || fd == fd_set[2] || fd == fd_set[3] || fd == fd_set[4] || fd == fd_set[5]))
+  ;
+
+CONTRACT(get_max_fd)
+static int get_max_fd(void)
+  ASSIGNS(g)
+  ENS("C11/get_max_fd.highest_descriptor_number", IMPLIES(RV >= 0, gc.cfg_rlim_cur > (uint64_t) INT_MAX ? RV == INT_MAX : (uint64_t) RV + 1 == gc.cfg_rlim_cur))
+  ENS("C04/get_max_fd.failure_is_errno", IMPLIES(RV < 0, RV == -g.err && g.faults > OLD(g.faults)))
+  ;
+
+/* process_fork, both sides of fork (the harness picks one through
+   gc.cfg_child_side). Parent side: the caller's signal mask and descriptors are
+   what they were, on every return; a positive result is a live child that did
+   not fail inside process_fork. Child side (returns 0 or does not return): clean
+   signal state, nothing open below the descriptor limit except `except`. */
+CONTRACT(process_fork)
+static pid_t process_fork(const int *except, size_t num_except)
+  REQ_(except != NULL && num_except == 6 && !g.in_child && g.fork_stage == 0 && g.child_pid == 0 && !g.child_live)
+  ASSIGNS(g)
+  ENS("C12/process_fork.parent_signal_mask_restored", IMPLIES(!g.in_child, g.sigmask == OLD(g.sigmask) && g.disp_default == OLD(g.disp_default) && g.cwd_id == OLD(g.cwd_id)))
+  ENS("C05/process_fork.parent_descriptors_as_before", IMPLIES(!g.in_child, g.open == OLD(g.open) && g.lib == OLD(g.lib) && g.cloexec == OLD(g.cloexec) && g.nonblock == OLD(g.nonblock)))
+  ENS("C04/process_fork.parent_never_sees_zero", IMPLIES(!g.in_child, RV != 0))
+  ENS("C04+C06/process_fork.success_is_live_child", IMPLIES(!g.in_child && RV > 0, RV == g.child_pid && g.child_live && !g.child_reaped && g.reaps == OLD(g.reaps) && g.fork_stage == 2 && g.child_fate != FATE_FAILED_EARLY))
+  ENS("C04+C05/process_fork.failure_leaves_no_child", IMPLIES(!g.in_child && RV < 0, !g.child_live && (g.child_pid == 0 || g.child_reaped)))
+  ENS("C04/process_fork.failure_is_real_cause", IMPLIES(!g.in_child && RV < 0 && OLD(g.faults) == 0, (g.faults > 0 && RV == -g.first_errno) || (g.child_fate == FATE_FAILED_EARLY && RV == -g.child_fate_errno)))
+  ENS("C06/process_fork.parent_sends_no_signal", g.nsig == OLD(g.nsig) && g.kill_calls == OLD(g.kill_calls))
+  ENS("C12/process_fork.child_clean_signal_state", IMPLIES(g.in_child, RV == 0 && g.sigmask == 0 && DISP_ALL_DEFAULT))
+  ENS("C11/process_fork.child_keeps_only_excepted_descriptors", IMPLIES(g.in_child, (g.open & SOFT_LIMIT_MASK & ~EXCEPT6_MASK(except)) == 0))
+  ENS("C10/process_fork.child_excepted_descriptors_untouched", IMPLIES(g.in_child, (g.open & EXCEPT6_MASK(except)) == (OLD(g.open) & EXCEPT6_MASK(except)) && (g.cloexec & EXCEPT6_MASK(except)) == (OLD(g.cloexec) & EXCEPT6_MASK(except))))
+  ENS("C04/process_fork.child_reports_nothing_on_success", IMPLIES(g.in_child, g.child_reports == 0 && !g.exited))
+  ;
+
 #endif
